@@ -107,7 +107,7 @@ Fixpoint free_vars (e : expr) (bound : list string) {struct e} : list string :=
               | KDyn a => free_vars a bound ++ free_vars v bound
               | KSpread a => free_vars a bound
               | KStatic _ => free_vars v bound
-              | KShort _ => []          (* the shorthand name itself is NOT collected *)
+              | KShort x => if mem x bound then [] else [x]   (* `{y}` reads y (repo fix F7) *)
               end) ++ go r
          end) entries
   | EDo stmts (Cm _ ret _) =>
